@@ -13,7 +13,8 @@
 Require Import D42.Prelude D42.Value D42.Regex D42.Schema D42.Validate D42.Conforms
                D42.FromNative D42.Substitute D42.Custom.
 Require Import D42.PyRandom D42.RegexGen D42.Generate.
-Require Import D42P.CustomSpec D42P.CustomGen.
+Require Import D42.Declare D42.Represent.
+Require Import D42P.CustomSpec D42P.CustomGen D42P.CustomRepr.
 
 (* Validation, both validators, every path: the same errors in the same order - same kind
    and parameters, same path, same actual value; the alternatives carried by a "none of the
@@ -66,6 +67,20 @@ Print Assumptions erase_removes_all.
 Theorem erase_idempotent : forall s, erase (erase s) = erase s.
 Proof. exact erase_idem. Qed.
 Print Assumptions erase_idempotent.
+
+(* The printed form: [represent] builds the same expression tree for the wrapped tree as for
+   the erased one - wrappers under elements, typed lists, dict members, alternatives, at any
+   depth (theories/Represent.v: the SCustom case hands the visitor to the wrapped schema, as
+   the forwarding __represent__ does; proofs/CustomRepr.v). *)
+Theorem erase_represent : forall s, represent (erase s) = represent s.
+Proof. exact erase_represent_lemma. Qed.
+Print Assumptions erase_represent.
+
+Example erase_represent_example :
+  let s := SList (Some [Some (SCustom (SDict (Some [(KStr [97%N], Some (SCustom (SCustom SNone)), true)]))); None])
+                 None None None None in
+  customs s = 3%nat /\ represent s = represent (erase s) /\ represent s <> EOpaque.
+Proof. vm_compute. repeat split. discriminate. Qed.
 
 (* ---------------------------------------------------------------- non-vacuity ---- *)
 Open Scope N_scope.
